@@ -404,6 +404,45 @@ def _sign_convention(res, index):
                     a_ = _resolve(arg_, f.node, depth=6)
                     if isinstance(a_, ast.UnaryOp) and isinstance(a_.op, ast.USub) and "_point_plane_distances" in _expanded(a_.operand, f.node):
                         ok = True
+        if pol == "neg" and not ok:
+            # the sign factored out of a product / sum: -np.sum(eq[:, 3] * areas) - the polarity with which column 3 enters the
+            # returned expression (through local temporaries, products, quotients, sums, unary minus, subtraction)
+            from ..astutil import single_assignments as _sa
+            env_ = _sa(f.node)
+
+            def polarity(e_, sign=1, depth=0):
+                if depth > 8:
+                    return set()
+                if isinstance(e_, ast.Name) and e_.id in env_:
+                    return polarity(env_[e_.id], sign, depth + 1)
+                if isinstance(e_, ast.Subscript):
+                    txt_ = ast.unparse(e_).replace(" ", "")
+                    if txt_.endswith(("[:,3]", "[3]", "[...,3]", ",3]", "[:,-1]")) and "_equations" in txt_:
+                        return {sign}
+                    return polarity(e_.value, sign, depth + 1) if not isinstance(e_.value, ast.Attribute) else set()
+                if isinstance(e_, ast.UnaryOp) and isinstance(e_.op, ast.USub):
+                    return polarity(e_.operand, -sign, depth + 1)
+                if isinstance(e_, ast.BinOp):
+                    if isinstance(e_.op, (ast.Mult, ast.Div, ast.MatMult)):
+                        flip = -1 if any(isinstance(x, ast.Constant) and isinstance(x.value, (int, float)) and x.value < 0 for x in (e_.left, e_.right)) else 1
+                        return polarity(e_.left, sign * flip, depth + 1) | (polarity(e_.right, sign * flip, depth + 1) if not isinstance(e_.op, ast.Div) else set())
+                    if isinstance(e_.op, ast.Add):
+                        return polarity(e_.left, sign, depth + 1) | polarity(e_.right, sign, depth + 1)
+                    if isinstance(e_.op, ast.Sub):
+                        return polarity(e_.left, sign, depth + 1) | polarity(e_.right, -sign, depth + 1)
+                    return set()
+                if isinstance(e_, ast.Call) and ast.unparse(e_.func).split(".")[-1] in ("sum", "dot", "multiply", "inner", "einsum", "array", "asarray", "nansum") :
+                    out_ = set()
+                    for a_ in list(e_.args) + ([e_.func.value] if isinstance(e_.func, ast.Attribute) and not isinstance(e_.func.value, ast.Name) else []):
+                        out_ |= polarity(a_, sign, depth + 1)
+                    return out_
+                return set()
+            rets_ = [n_.value for n_ in ast.walk(f.node) if isinstance(n_, ast.Return) and n_.value is not None]
+            pols_ = set()
+            for rv_ in rets_:
+                pols_ |= polarity(rv_)
+            if pols_ == {-1}:
+                ok = True
         reads_col3 = any(isinstance(n_, ast.Subscript) and ast.unparse(n_).replace(" ", "").endswith(("[:,3]", "[3]", "[...,3]", ",3]"))
                          for n_ in ast.walk(f.node)) or "_point_plane_distances" in ast.unparse(f.node)
         if ok:
